@@ -2,7 +2,7 @@
 import ast
 from sa.index import AnalysisError, FuncInfo
 from sa.paths import call_name
-from rules.common import txt, paths_of, loc, tests_on, Quiet
+from rules.common import txt, paths_of, loc, tests_on, Quiet, returned_values
 
 M = 'iterutils'
 SPEC = {
@@ -199,16 +199,26 @@ def run(ctx):
     if n_app == 0:
         ctx.unknown('T9.visit', rm.fq, 'no append to the collected items found', rm.loc)
     # path bookkeeping: the key is appended to the path for every entered container except the root itself
+    # roles from the call enter(<path>, <key>, <value>)
+    ecalls = [n for n in ast.walk(rm.node) if isinstance(n, ast.Call) and txt(n.func) == 'enter' and len(n.args) == 3 and
+              all(isinstance(a, ast.Name) for a in n.args)]
+    if not ecalls:
+        raise AnalysisError('anchor vanished: remap does not call enter(path, key, value) with three plain names')
+    PATH, KEY, VALUE = [a.id for a in ecalls[0].args]
     ext = []
     for n in ast.walk(rm.node):
         if isinstance(n, ast.If):
             for st in n.body:
-                if isinstance(st, ast.AugAssign) and txt(st.target) == 'path' and 'key' in txt(st.value):
+                grows = (isinstance(st, ast.AugAssign) and txt(st.target) == PATH and
+                         any(isinstance(x, ast.Name) and x.id == KEY for x in ast.walk(st.value))) or \
+                        (isinstance(st, ast.Assign) and any(txt(t) == PATH for t in st.targets) and
+                         {PATH, KEY} <= {x.id for x in ast.walk(st.value) if isinstance(x, ast.Name)})
+                if grows:
                     ext.append(n)
     ok = bool(ext)
     for n in ext:
         ids = [c for c in ast.walk(n.test) if isinstance(c, ast.Compare) and isinstance(c.ops[0], (ast.Is, ast.IsNot))
-               and {txt(c.left), txt(c.comparators[0])} == {'value', 'root'}]
+               and {txt(c.left), txt(c.comparators[0])} == {VALUE, rm.params[0]}]
         ok = ok and bool(ids)
     ctx.ob('T9.path', rm.fq, 'the path is extended by the key for every entered container except the root (identity test against root, '
            'not a test on the key: None is a legal key)', ok, loc=loc(rm, ext[0]) if ext else rm.loc,
@@ -229,7 +239,7 @@ def run(ctx):
     ctx.ob('T2.reg', rm.fq, 'an already registered id resolves to the registered value (shared objects rebuilt once, cycles terminate)', hit, loc=rm.loc)
     # research
     rs = prog.func(M + '.research')
-    inner = [n for n in rs.node.body if isinstance(n, ast.FunctionDef)]
+    inner = [n for n in ast.walk(rs.node) if isinstance(n, ast.FunctionDef) and n is not rs.node]
     ok = False
     det = ''
     for fn in inner:
@@ -240,14 +250,21 @@ def run(ctx):
         appends = [n for n in ast.walk(fn) if isinstance(n, ast.Call) and isinstance(n.func, ast.Attribute) and n.func.attr == 'append' and n.args
                    and isinstance(n.args[0], ast.Tuple) and len(n.args[0].elts) == 2
                    and txt(n.args[0].elts[0]).replace(' ', '') == '%s+(%s,)' % (pth, key) and txt(n.args[0].elts[1]) == val]
-        rets = [n for n in ast.walk(fn) if isinstance(n, ast.Return) and isinstance(n.value, ast.Call) and txt(n.value.func) == 'enter'
-                and [txt(a) for a in n.value.args] == [pth, key, val]]
+        fi = next((x for x in rs.module.all_funcs if x.node is fn), None)
+        rets = []
+        if fi is not None:
+            # decided on the value every path of the wrapper returns (a temporary does not matter)
+            rvs = [e for e, _, _ in returned_values(prog, fi)]
+            if rvs and all(isinstance(e, ast.Call) and txt(e.func) == 'enter' and [txt(a) for a in e.args] == [pth, key, val] for e in rvs):
+                rets = rvs
         queried = any(isinstance(n, ast.Call) and txt(n.func) == 'query' and [txt(a) for a in n.args] == [pth, key, val] for n in ast.walk(fn))
         calls = [n for n in ast.walk(rs.node) if isinstance(n, ast.Call) and call_name(n) == 'remap' and n.args and txt(n.args[0]) == 'root'
                  and any(k.arg == 'enter' and txt(k.value) == fn.name for k in n.keywords)]
         if appends and rets and queried and calls:
             lst = txt(appends[0].func.value)
-            returned = any(isinstance(n, ast.Return) and txt(n.value) == lst for n in rs.node.body)
+            returned = any(isinstance(n, ast.Return) and txt(n.value) == lst for n in ast.walk(rs.node)
+                           if not any(n in list(ast.walk(f2)) for f2 in inner)) or \
+                all(txt(p.outcome[1]) == lst or txt(e) == lst for e, p, _ in returned_values(prog, rs))
             ok = returned
             det = 'collector %s via %s' % (lst, fn.name)
     ctx.ob('T17.research', rs.fq, 'research records (path + (key,), value) for matching items, delegates to the given enter and traverses '
